@@ -19,6 +19,7 @@ def run(ctx):
     from .configtime import derived_values as _derived
     _derived(ctx, 'C19.R1', ('Container', 'Recipe', 'RecipeStep', 'Unit', 'Plate', 'PlateSlicer'))
     stated_amounts_before_mixing(ctx, 'C19.R3')
+    stated_amounts_read_from_final_state(ctx, 'C19.R3')
     from .configtime import late_binding_closures as _late
     _late(ctx, 'C19.R2', classes=('Recipe', 'RecipeStep', 'Container', 'PlateSlicer'))
     from .configtime import groupby_on_sorted_input as _groupby
@@ -200,3 +201,112 @@ def stated_amounts_before_mixing(ctx, rule):
                why='a solvent container that already holds some of the solute makes the instruction state more than was added',
                key='stated solute amounts read after mixing')
     ctx.count('stated_amount_sites', n)
+
+
+def _base_name(e):
+    """`X` of `X.contents`, `X.contents[k]`, `X.contents.items()` .. (None when the base is not a plain name)."""
+    while isinstance(e, (ast.Subscript, ast.Call, ast.Attribute)):
+        if isinstance(e, ast.Attribute) and e.attr in ('contents', 'volume') and isinstance(e.value, ast.Name):
+            return e.value.id
+        e = e.func if isinstance(e, ast.Call) else e.value
+    return None
+
+
+def _common_loop(a, b, top):
+    def loops(n):
+        out, p = set(), getattr(n, 'parent', None)
+        while p is not None and p is not top:
+            if isinstance(p, (ast.For, ast.While)):
+                out.add(id(p))
+            p = getattr(p, 'parent', None)
+        return out
+    return bool(loops(a) & loops(b))
+
+
+def stated_amounts_read_from_final_state(ctx, rule):
+    """An instruction that is composed from the state of a container (`X.contents`, `X.volume`) states the amounts the
+    container holds when the operation is over.  A read that sits in a loop which also changes X (a call of
+    `X._self_add`, a store into `X.contents`/`X.volume`) sees the running total of the entries handled so far: an
+    entry that names a substance a second time is then stated with the accumulated amount, and once per entry."""
+    model = ctx.model.plain()
+    n = 0
+    for fi in model.functions('pyplate/pyplate.py'):
+        if fi.parent is not None:
+            continue
+        stores = [s for s in walk_no_nested(fi.node) if isinstance(s, (ast.Assign, ast.AugAssign)) and
+                  any(isinstance(t, ast.Attribute) and t.attr == 'instructions'
+                      for t in (s.targets if isinstance(s, ast.Assign) else [s.target]))]
+        if not stores:
+            continue
+        # backward slice over local names: everything the instruction text is composed from
+        exprs, names, seen = [s.value for s in stores], set(), set()
+        defs = {}
+        last = max(s.lineno for s in stores)
+
+        def _names(t):
+            if isinstance(t, ast.Name):
+                return [t.id]
+            if isinstance(t, (ast.Tuple, ast.List)):
+                return [x for e in t.elts for x in _names(e)]
+            if isinstance(t, ast.Starred):
+                return _names(t.value)
+            return []       # a store into an attribute or an element defines no local name
+        for s in walk_no_nested(fi.node):
+            if getattr(s, 'lineno', 0) > last:
+                continue    # (definitions after the last instruction store do not reach it)
+            if isinstance(s, ast.Assign):
+                for t in s.targets:
+                    for nm in _names(t):
+                        defs.setdefault(nm, []).append((s, s.value))
+            elif isinstance(s, ast.AugAssign) and isinstance(s.target, ast.Name):
+                defs.setdefault(s.target.id, []).append((s, s.value))
+            elif isinstance(s, ast.For):
+                for nm in _names(s.target):
+                    defs.setdefault(nm, []).append((s, s.iter))
+            elif isinstance(s, ast.Expr) and isinstance(s.value, ast.Call) and isinstance(s.value.func, ast.Attribute) and \
+                    s.value.func.attr in ('append', 'extend', 'insert') and isinstance(s.value.func.value, ast.Name):
+                defs.setdefault(s.value.func.value.id, []).extend((s, a) for a in s.value.args)
+        reads = []
+        while exprs:
+            e = exprs.pop()
+            if id(e) in seen:
+                continue
+            seen.add(id(e))
+            local = {nm.id for c in ast.walk(e) if isinstance(c, ast.comprehension) for nm in ast.walk(c.target)
+                     if isinstance(nm, ast.Name)}
+            for x in ast.walk(e):
+                if isinstance(x, ast.Name) and (x.id, x.lineno) not in names and x.id not in local:
+                    names.add((x.id, x.lineno))
+                    for d, val in defs.get(x.id, []):
+                        if isinstance(d, ast.For):
+                            if d.lineno <= x.lineno <= d.end_lineno:      # a loop variable is used in its loop
+                                exprs.append(val)
+                        elif d.lineno <= x.lineno or _common_loop(d, x, fi.node):
+                            exprs.append(val)
+                if isinstance(x, ast.Attribute) and x.attr in ('contents', 'volume') and isinstance(x.value, ast.Name) and \
+                        isinstance(x.ctx, ast.Load):
+                    reads.append(x)
+        for r in reads:
+            base = r.value.id
+            loops, p = [], getattr(r, 'parent', None)
+            while p is not None and p is not fi.node:
+                if isinstance(p, (ast.For, ast.While)):
+                    loops.append(p)
+                p = getattr(p, 'parent', None)
+            bad = None
+            for lp in loops:
+                for s in ast.walk(lp):
+                    if isinstance(s, ast.Call) and isinstance(s.func, ast.Attribute) and s.func.attr in ('_self_add',) and \
+                            isinstance(s.func.value, ast.Name) and s.func.value.id == base:
+                        bad = s
+                    elif isinstance(s, (ast.Assign, ast.AugAssign)):
+                        for t in (s.targets if isinstance(s, ast.Assign) else [s.target]):
+                            if isinstance(t, (ast.Subscript, ast.Attribute)) and _base_name(t) == base:
+                                bad = s
+            n += 1
+            ctx.ob(rule, fi, r.lineno, f"`{unparse(r)}` stated in the instruction is read when `{base}` is complete", bad is None,
+                   fact=(f"read in the loop at line {loops[-1].lineno} that also runs `{unparse(bad)[:60]}`" if bad is not None
+                         else f"no change of `{base}` in a loop around the read ({len(loops)} loop(s))"),
+                   why='the instruction states running totals: a substance named by two entries is stated twice, the second time with the sum',
+                   key=f"instruction reads {base}.{r.attr} inside the loop that changes it")
+    floor(ctx, 'state reads composing an instruction', n, 2)
